@@ -107,7 +107,7 @@ func modeFor(prop string) (*histMode, error) {
 			}}, nil
 	case "C05":
 		return &histMode{flavors: []string{"counter", "array", "text", "mixed"}, proto: true,
-			gen: hist.GenConfig{NoMovedSet: true, MinClients: 2, MaxClients: 4, MinSteps: 6, MaxSteps: 30, Retry: true, Racing: true, Inflight: true, LostRetry: true},
+			gen: hist.GenConfig{NoMovedSet: true, MinClients: 2, MaxClients: 4, MinSteps: 6, MaxSteps: 30, Retry: true, Racing: true, Inflight: true, LostRetry: true, Faults: true},
 			oracle: func(h *hist.History, o *hist.Outcome) []hist.Problem {
 				ps := baseOracle(h, o)
 				seen := map[string]bool{}
@@ -264,6 +264,17 @@ func runHist(cfg *config) error {
 			}
 		}
 		sig["tree_split_undo"] = splitUndo
+		// did a storage fault fire after the pushed changes were stored and before the client's
+		// checkpoint was (finding P8)?
+		window := false
+		if _, o4 := rn.RunFull(ctx, small); o4 != nil {
+			for _, so := range o4.Steps {
+				if strings.HasSuffix(so.Fault, "/window") {
+					window = true
+				}
+			}
+		}
+		sig["push_window_fault"] = window
 		// is somebody else editing in a history where one client undoes/redoes?
 		undoers, editors := map[int]bool{}, map[int]bool{}
 		for _, st := range small.Steps {
